@@ -331,6 +331,29 @@ def check(case, ctx):
         ctx.fail('create_annotation(**dict)-raises', canon, b, text=s)
     elif not (b == a) or not (a == b) or (a != b) or pmodel.diff(exp, pmodel.observed(b)) or b.serialize() != canon:
         ctx.fail('create_annotation(**dict)', canon, b.serialize(), text=s)
+    # 2b. a copy whose modifications were edited in place (value / multiplier of every Mod object) equals the annotation
+    #     rebuilt from its own dictionary and from its own text: equality follows the fields, not the object's past
+    e = a.copy()
+    nedit = 0
+    for lst in [e.labile_mods, e.unknown_mods, e.nterm_mods, e.cterm_mods] + list((e.internal_mods or {}).values()) + \
+            [iv.mods for iv in (e.intervals or [])]:
+        for m in (lst or []):
+            m.mult = m.mult + 1
+            if isinstance(m.val, (int, float)):
+                m.val = m.val + 5
+            nedit += 1
+    if nedit:
+        st, e2 = lib.call(lambda: p.create_annotation(**e.dict()))
+        st3, e3 = lib.call(lambda: p.parse(e.serialize()))
+        ctx.evals += 2
+        if st != 'ok' or not (e == e2) or not (e2 == e) or (e != e2):
+            ctx.fail('eq-after-in-place-edit', e.serialize(), e2.serialize() if st == 'ok' else e2, text=s,
+                     rebuilt_from='dict')
+        if st3 != 'ok' or not (e == e3) or not (e3 == e):
+            ctx.fail('eq-after-in-place-edit', e.serialize(), e3.serialize() if st3 == 'ok' else e3, text=s,
+                     rebuilt_from='text')
+        if e == a:
+            ctx.fail('eq-after-in-place-edit', 'edited copy differs from its source', 'equal', text=s)
     # 3. copies: equal and independent in both directions
     c = a.copy()
     if not (c == a) or pmodel.observed(c) != pmodel.observed(a):
